@@ -88,6 +88,53 @@ Proof.
     intros k Hk. rewrite <- (N k Hk). rewrite nth_firstn_lt by lia. reflexivity.
 Qed.
 
+(* width of the code point that starts at byte offset o *)
+Definition seg_width (s : bytes) (o : Z) : Z := Z.of_nat (snd (decode (skipn (Z.to_nat o) s))).
+
+Lemma skipn_nth_cons (s : bytes) p : (p < length s)%nat -> skipn p s = nth p s 0 :: skipn (S p) s.
+Proof.
+  revert p. induction s as [|b s IH]; intros p H; [cbn in H; lia|].
+  destruct p as [|p]; [reflexivity|]. cbn [skipn nth]. apply IH. cbn [length] in H. lia.
+Qed.
+
+Lemma seg_width_ascii s p : (p < length s)%nat -> nth p s 0 < 128 -> seg_width s (Z.of_nat p) = 1.
+Proof.
+  intros Hp Hb. unfold seg_width. rewrite Nat2Z.id, (skipn_nth_cons s p Hp), decode_ascii by exact Hb. reflexivity.
+Qed.
+
+Lemma seg_width_occ s r p :
+  valid_rune r = true -> occ (encode r) s p = true -> seg_width s (Z.of_nat p) = len (encode r).
+Proof.
+  intros V O. unfold seg_width, occ in *. rewrite Nat2Z.id.
+  apply starts_with_app_eq in O as [rest E]. rewrite E, decode_encode by exact V. reflexivity.
+Qed.
+
+(* the code point found by a search for the rune m (m <> U+FFFD) has the width of m *)
+Lemma seg_width_rune_index s m :
+  wf s -> m <> RuneError -> 0 <= rune_index s m -> seg_width s (rune_index s m) = rune_len m.
+Proof.
+  intros Hw Hm H. unfold rune_index in *.
+  destruct (index_where (fun x => x =? m) (runes s) 0) as [k|] eqn:E; cbn [offz] in *; [|lia].
+  apply index_where_some in E as (d & -> & Hd & Hf & _). cbn [Nat.add]. unfold seg_width. rewrite Nat2Z.id.
+  unfold runes in Hd, Hf. rewrite map_length in Hd.
+  assert (Hseg : segs (skipn (off s d) s) = skipn d (segs s)) by apply segs_skipn_off.
+  destruct (skipn (off s d) s) as [|b t] eqn:Sk.
+  { rewrite segs_nil in Hseg. apply (f_equal (@length _)) in Hseg. rewrite skipn_length in Hseg. cbn in Hseg. lia. }
+  assert (Hwt : wf (b :: t)) by (rewrite <- Sk; apply wf_skipn; exact Hw).
+  rewrite segs_cons in Hseg.
+  assert (Hd2 : decode (b :: t) = nth d (segs s) (0, 0%nat)).
+  { rewrite <- (Nat.add_0_r d), <- nth_skipn_add, <- Hseg. reflexivity. }
+  assert (Hr : fst (decode (b :: t)) = m).
+  { rewrite Hd2. change 0 with (fst (0, 0%nat)) in Hf. rewrite map_nth in Hf. lia. }
+  destruct (decode_class b t Hwt) as [D|(L & _)].
+  - rewrite D in Hr. cbn in Hr. congruence.
+  - rewrite L, Hr. reflexivity.
+Qed.
+
+Lemma finish_pair (R v sz0 : Z) (W : Z -> Z) :
+  R = v -> (0 <= v -> sz0 = W v) -> exists sz, @Ok (Z * Z) (v, sz0) = Ok (R, sz) /\ (0 <= R -> sz = W R).
+Proof. intros -> H. exists sz0. split; [reflexivity|exact H]. Qed.
+
 Section B.
 Variable native : bool.
 Variable cutover : Z -> Z.
@@ -96,7 +143,8 @@ Variable cutover : Z -> Z.
    [special] the encoding of the non-ASCII fold partner r *)
 Lemma indexByte_ks s c l r special :
   wf s -> (c = l \/ c = l - 32) -> (l = 107 /\ r = 8490 /\ special = kelvin \/ l = 115 /\ r = 383 /\ special = long_s) ->
-  exists sz, indexByte native cutover s c = Ok (raw_index_pats [[l]; [l - 32]; special] s 0, sz).
+  exists sz, indexByte native cutover s c = Ok (raw_index_pats [[l]; [l - 32]; special] s 0, sz) /\
+             (0 <= raw_index_pats [[l]; [l - 32]; special] s 0 -> sz = seg_width s (raw_index_pats [[l]; [l - 32]; special] s 0)).
 Proof.
   intros Hw Hc Hl.
   assert (Henc : encode r = special /\ valid_rune r = true /\ 128 <= r /\ r <> RuneError /\ special <> [] /\
@@ -127,7 +175,9 @@ Proof.
     apply (occ_nth _ _ _ Hsp) in O as [L N]. unfold sz, len in Hin.
     specialize (N (q - p)%nat ltac:(lia)). replace (p + (q - p))%nat with q in N by lia.
     assert (128 <= nth (q - p) special 0) by (apply Hhi, nth_In; lia). lia. }
-  unfold indexByte. destruct s as [|b0 s0] eqn:Es; [exists 1; reflexivity|]. rewrite <- Es in *.
+  assert (Hszocc : forall p, occ special s p = true -> sz = seg_width s (Z.of_nat p)).
+  { intros p O. rewrite <- Eenc in O. rewrite (seg_width_occ s r p Vr O), Eenc. reflexivity. }
+  unfold indexByte. destruct s as [|b0 s0] eqn:Es; [exists 1; split; [reflexivity|cbn; lia]|]. rewrite <- Es in *.
   replace (is_nil s) with false by (rewrite Es; reflexivity).
   replace (if (c =? 75) || (c =? 107) then Some (8490, 3) else if (c =? 83) || (c =? 115) then Some (383, 2) else None)
     with (Some (r, sz)).
@@ -147,11 +197,10 @@ Proof.
     rewrite En. cbn [Z.ltb andb]. replace (0 <? -1) with false by reflexivity. cbn [andb].
     rewrite (indexRuneCase_ok native cutover s r Hw). cbn [bind].
     rewrite <- (std_index_encode s r Hw Vr Hr Hre), Eenc. rewrite Z.eqb_refl. cbn [orb].
-    exists sz. f_equal. f_equal.
     destruct (occ_least_or_none special s) as [No|(p & Hp & Hlp)].
-    + rewrite (std_index_absent _ _ No). symmetry. apply raw_pats_absent.
+    + rewrite (std_index_absent _ _ No). apply finish_pair; [|lia]. apply raw_pats_absent.
       intros p Hp. rewrite Hpat by exact Hp. rewrite Nn, No by exact Hp. reflexivity.
-    + rewrite (std_index_least _ _ p Hsp Hp Hlp). symmetry.
+    + rewrite (std_index_least _ _ p Hsp Hp Hlp). apply finish_pair; [|intros _; apply Hszocc; exact Hp].
       assert (Hpl : (p < length s)%nat).
       { apply (occ_nth _ _ _ Hsp) in Hp as [L _]. destruct special; [congruence|cbn in L; lia]. }
       rewrite (raw_pats_least pats s 0 p); [lia| |exact Hpl|].
@@ -165,7 +214,8 @@ Proof.
       - intros q Hq. rewrite Hpat by lia. rewrite Nd, Nb by lia. reflexivity. }
     rewrite En.
     destruct ((0 <? Z.of_nat d) && (Z.of_nat d <? sz)) eqn:Small.
-    { exists 1. f_equal. f_equal. symmetry. apply Hleast_d. intros p Hp.
+    { apply finish_pair; [|intros _; symmetry; apply seg_width_ascii; [exact Hd|apply Hmatch_ascii; exact Hfd]].
+      apply Hleast_d. intros p Hp.
       destruct (occ special s p) eqn:O; [|reflexivity]. exfalso.
       pose proof (Hroom p d O Hp Hd (Hmatch_ascii d Hfd)). lia. }
     set (s' := if 0 <? Z.of_nat d then firstn (Z.to_nat (Z.of_nat d)) s else s).
@@ -177,7 +227,8 @@ Proof.
     + (* d >= sz: the search space is s[:d] *)
       unfold s'. rewrite Nat2Z.id.
       destruct (occ_least_or_none special (firstn d s)) as [No|(p & Hp & Hlp)].
-      * rewrite (std_index_absent _ _ No). rewrite Z.eqb_refl. cbn [negb andb]. exists 1. f_equal. f_equal. symmetry.
+      * rewrite (std_index_absent _ _ No). rewrite Z.eqb_refl. cbn [negb andb].
+        apply finish_pair; [|intros _; symmetry; apply seg_width_ascii; [exact Hd|apply Hmatch_ascii; exact Hfd]].
         apply Hleast_d. intros p Hp. destruct (occ special s p) eqn:O; [|reflexivity]. exfalso.
         pose proof (Hroom p d O Hp Hd (Hmatch_ascii d Hfd)) as R.
         specialize (No p). rewrite (occ_firstn special s d p Hsp ltac:(lia)), O in No.
@@ -187,7 +238,7 @@ Proof.
         apply Nat.leb_le in Lp.
         assert (0 < length special)%nat by (destruct special; [congruence|cbn; lia]).
         replace (negb (Z.of_nat p =? -1) && (Z.of_nat p <? Z.of_nat d)) with true by lia.
-        exists sz. f_equal. f_equal. symmetry.
+        apply finish_pair; [|intros _; apply Hszocc; exact Op].
         rewrite (raw_pats_least pats s 0 p); [lia| |lia|].
         -- rewrite Hpat by lia. rewrite Op. apply orb_true_r.
         -- intros q Hq. rewrite Hpat by lia. rewrite Nd by lia. cbn [orb].
@@ -197,8 +248,9 @@ Proof.
            replace (q + length special <=? d)%nat with true in Hlp by lia. discriminate.
     + (* d = 0 *)
       assert (d = 0%nat) by lia. subst d.
-      exists 1. replace (negb (std_index s' special =? -1) && (std_index s' special <? Z.of_nat 0)) with false.
-      * f_equal. f_equal. symmetry. apply Hleast_d. intros p Hp. lia.
+      replace (negb (std_index s' special =? -1) && (std_index s' special <? Z.of_nat 0)) with false.
+      * apply finish_pair; [|intros _; symmetry; apply seg_width_ascii; [exact Hd|apply Hmatch_ascii; exact Hfd]].
+        apply Hleast_d. intros p Hp. lia.
       * unfold std_index. destruct (raw_index_ge [special] s' 0 ltac:(lia)) as [E|E]; lia.
 Qed.
 
@@ -208,10 +260,10 @@ Proof.
   intros Hw Hc. unfold IndexByte, index_byte. destruct (is_ks c) eqn:K.
   - assert (Hcase : (c = 107 \/ c = 75) \/ (c = 115 \/ c = 83)) by (unfold is_ks in K; lia).
     destruct Hcase as [Hk|Hs].
-    + destruct (indexByte_ks s c 107 8490 kelvin Hw ltac:(lia) ltac:(left; auto)) as (sz & E).
+    + destruct (indexByte_ks s c 107 8490 kelvin Hw ltac:(lia) ltac:(left; auto)) as (sz & E & _).
       rewrite E. cbn [bind fst]. f_equal. unfold byte_pats, is_alpha, lower_ascii.
       destruct Hk as [-> | ->]; reflexivity.
-    + destruct (indexByte_ks s c 115 383 long_s Hw ltac:(lia) ltac:(right; auto)) as (sz & E).
+    + destruct (indexByte_ks s c 115 383 long_s Hw ltac:(lia) ltac:(right; auto)) as (sz & E & _).
       rewrite E. cbn [bind fst]. f_equal. unfold byte_pats, is_alpha, lower_ascii.
       destruct Hs as [-> | ->]; reflexivity.
   - rewrite byte_pats_plain by assumption. reflexivity.
